@@ -276,6 +276,8 @@ def gr_specs(draw, tier):
     # volume changed isotropically (closed form available), or by straining one axis only: the strained cells then have LOWER symmetry than
     # the reference, and only the agreement between symmetry-reduced and full meshes is asserted
     b["strain"] = draw(st.sampled_from(["iso", "iso", "axis0", "axis2"]))
+    # frequency unit of the three Phonopy objects (factor argument): THz (default), the same x 2, cm^-1
+    b["unit"] = draw(st.sampled_from([None, None, 2.0, 33.35641]))
     return b
 
 
@@ -298,6 +300,10 @@ def run_gruneisen(spec):
         ph0 = Phonopy(cell, supercell_matrix=S, primitive_matrix="auto", log_level=0)
     except Exception as e:
         return Out(nontrivial=False, rejected=True, classes=["ctor_rejected:" + type(e).__name__])
+    from phonopy.units import VaspToTHz
+
+    fr = float(spec.get("unit") or 1.0)
+    kwf = {} if spec.get("unit") is None else {"factor": VaspToTHz * fr}
     fc0 = springs_fc(ph0.supercell)
     strain = spec.get("strain", "iso")
     for scale in (1.0, 1 + a, 1 - b):
@@ -308,7 +314,7 @@ def run_gruneisen(spec):
             L[:, int(strain[-1])] *= scale  # Cartesian component along one axis: volume x scale, shape changed
         cc = PhonopyAtoms(symbols=cell.symbols, cell=L, scaled_positions=cell.scaled_positions, masses=cell.masses)
         try:
-            ph = Phonopy(cc, supercell_matrix=S, primitive_matrix=ph0.primitive_matrix, log_level=0)
+            ph = Phonopy(cc, supercell_matrix=S, primitive_matrix=ph0.primitive_matrix, log_level=0, **kwf)
         except Exception as e:
             return Out(nontrivial=False, rejected=True, classes=["ctor_rejected:" + type(e).__name__])
         # isotropic: exactly uniform scaling; one axis: the spring model re-evaluated on the strained geometry (symmetry of the strained cell)
@@ -323,9 +329,12 @@ def run_gruneisen(spec):
         q, w, f, ev, gam = gr.get_mesh()
         res[ms] = (np.array(w), np.array(f), np.array(gam))
     w, f, gam = res[False]
-    from phonopy.units import VaspToTHz
-
-    fscale = float(np.sqrt(np.abs(fc0).max() / phs[0].primitive.masses.min())) * VaspToTHz
+    fscale = float(np.sqrt(np.abs(fc0).max() / phs[0].primitive.masses.min())) * VaspToTHz * fr
+    # the frequencies reported next to the Grueneisen parameters are those of the reference object, in its unit
+    fq_ref = np.array([phs[0].get_frequencies(qq) for qq in q])
+    if np.abs(np.sort(f, axis=1) - np.sort(fq_ref, axis=1)).max() > 1e-7 * max(float(np.abs(fq_ref).max()), 1e-300):
+        return Out(ok=False, msg="mesh frequencies reported with the Grueneisen parameters differ from the reference object's own (unit factor x %g): max %.4g vs %.4g"
+                   % (fr, float(np.abs(f).max()), float(np.abs(fq_ref).max())))
     fmax = max(float(np.abs(f).max()), 0.05 * fscale)
 
     def clean_modes(ff):
@@ -338,7 +347,7 @@ def run_gruneisen(spec):
             srt = ff[i][order]
             start = 0
             for k in range(1, len(srt) + 1):
-                if k == len(srt) or srt[k] - srt[k - 1] > 5e-3:  # THz: three times the code's degeneracy tolerance 1e-4 x unit factor
+                if k == len(srt) or srt[k] - srt[k - 1] > 5e-3 * fr:  # THz: three times the code's degeneracy tolerance 1e-4 x unit factor
                     if srt[k - 1] - srt[start] < 1e-7 * fmax:
                         okm[i, order[start:k]] = True
                     start = k
@@ -369,6 +378,10 @@ def run_gruneisen(spec):
     bs = gr.get_band_structure()
     gam_b = np.array(bs[4][0])
     f_b = np.array(bs[2][0])
+    fb_ref = np.array([phs[0].get_frequencies(qq) for qq in bs[0][0]])
+    if np.abs(np.sort(f_b, axis=1) - np.sort(fb_ref, axis=1)).max() > 1e-7 * max(float(np.abs(fb_ref).max()), 1e-300):
+        return Out(ok=False, msg="band-structure frequencies reported with the Grueneisen parameters differ from the reference object's own (unit factor x %g): "
+                   "max %.4g vs %.4g" % (fr, float(np.abs(f_b).max()), float(np.abs(fb_ref).max())))
     okb = (f_b > 1e-2 * fmax) & clean_modes(f_b)
     if okb.any() and np.abs(gam_b[okb] - closed).max() > 1e-7 * max(1.0, abs(closed)):
         return Out(ok=False, msg="band-structure Grueneisen parameters differ from the closed form: %.3e" % np.abs(gam_b[okb] - closed).max())
@@ -382,7 +395,7 @@ def run_gruneisen(spec):
     e2 = np.abs(ma - mb).max() / max(1.0, np.abs(mb).max())
     if e2 > 1e-6:
         return Out(ok=False, msg="weighted moments of (omega, gamma) differ between symmetry-reduced and full mesh: %.3e" % e2)
-    return Out(ok=True, nontrivial=True, classes=["asym" if spec["b"] != "same" else "sym", "delta:" + ("explicit" if spec["explicit_delta"] else "default"),
+    return Out(ok=True, nontrivial=True, classes=["unit_x%g" % fr, "asym" if spec["b"] != "same" else "sym", "delta:" + ("explicit" if spec["explicit_delta"] else "default"),
                                                   "reduced" if len(res[True][0]) < len(res[False][0]) else "noreduction"], info={"err": e})
 
 
